@@ -74,3 +74,4 @@ claim("C30", "K18", "Unbounded proof (loop contract) that the <valid>-expression
 claim("C33", "K24", "Unbounded proof of the interpreter leaves chrInFirstWord / firstWordEquals (loop contracts); bounded check per pattern word that the matcher generated by the real tools/matchcompiler.py equals the extracted Token::Match on symbolic token lists of 0..2 tokens (labelled bounded; seeded word sample in the quick tier, every word of lib/*.cpp in the thorough tier).", _NOTE)
 claim("C03", "K21 K04 K02", "Proof (loop-free regions, complete in all operands) that the verdict blocks of CheckCondition::comparison and checkCompareValueOutOfTypeRange only report a value the comparison has for every value of the non-constant operand under C's conversion rules; one recorded finding (signed variable against unsigned constant) is split off and reported as KNOWN-FINDING.", _NOTE)
 claim("C04", "K31", "Proof (loop-free regions) that the threshold decisions of checkTooBigBitwiseShift and checkIntegerOverflow report only where C leaves the operation undefined / the value outside the result type, with the value-flow lookups as arbitrary oracles; the shiftTooManyBitsSigned report is a recorded finding (KNOWN-FINDING). Whether the value is real is outside the claim.", _NOTE)
+claim("C09", "K02 K23", "Unbounded proof that Platform::set establishes the data model the property names for each built-in platform, that the range helpers equal the two's-complement ranges, and that the usual-arithmetic-conversion block of setValueType yields the C11 6.3.1.1/6.3.1.8 result type and signedness for the platform's sizes.", _NOTE)
